@@ -137,3 +137,47 @@ def sockets_table(payload):
             if refused != expect_refuse:
                 bad.append({"sockets": [(int(f), int(t)) for f, t in socks], "refused": refused, "expected": expect_refuse})
     return {"total": total, "failures": bad[:5]}
+
+
+def boolean_spellings(payload):
+    """which adjustments are switches is taken from docs/arguments.rst (Default: ``True`` / ``False``), not from the code's cast table:
+    every documented switch accepts every documented spelling in keyword form and both --x / --no-x on the command line"""
+    root = payload["repo_root"]
+    rst = open(os.path.join(root, "docs", "arguments.rst")).read()
+    switches, cur = [], None
+    for line in rst.splitlines():
+        if re.fullmatch(r"[a-z_0-9]+", line):
+            cur = line
+        elif line and not line.startswith(" "):
+            cur = None
+        elif cur:
+            m = re.match(r" {2,}Default: ``(True|False)``", line)
+            if m:
+                switches.append((cur, m.group(1)))
+                cur = None
+    truthy = ["t", "true", "y", "yes", "on", "1", "True", "YES", " on "]
+    falsy = ["f", "false", "n", "no", "off", "0", "False", "", "NO"]
+    bad, total = [], 0
+    for name, _default in switches:
+        if name not in dict(Adjustments._params):
+            continue
+        for v, want in [(x, True) for x in truthy] + [(x, False) for x in falsy] + [(True, True), (False, False), (None, False)]:
+            total += 1
+            adj, err = build(**{name: v, "listen": "127.0.0.1:0"})      # a literal address: no resolver involved
+            if name in ("ipv4", "ipv6") and err:      # a host without that address family refuses the option outright
+                continue
+            if err or getattr(adj, name) is not want:
+                bad.append({"option": name, "keyword_value": v, "expected": want, "got": err or repr(getattr(adj, name))})
+        opt = name.replace("_", "-")
+        for argv, want in ((["--" + opt], True), (["--no-" + opt], False)):
+            total += 1
+            try:
+                kw = Adjustments.parse_args(argv + ["--listen=127.0.0.1:0", "waitress.compat:WIN"])
+                for k in ("help", "app"):
+                    kw.pop(k, None)
+                got = getattr(Adjustments(**kw), name)          # the cast is applied by the constructor
+            except Exception as e:
+                got = type(e).__name__ + ": " + str(e)[:80]
+            if got is not want:
+                bad.append({"option": name, "argv": argv, "expected": want, "got": repr(got)})
+    return {"total": total, "switches": [n for n, _ in switches], "failures": bad[:6]}
